@@ -226,12 +226,13 @@ impl<'tcx> Runner<'tcx> {
         self.ip.rng_mode = match job.opts.get("rng").map(|s| s.as_str()) {
             Some("ok") => 1,
             Some("err") => 2,
+            Some(x) if x.starts_with("fail") => 3 + x[4..].parse::<u8>().unwrap_or(0),
             _ => 0,
         };
         if env != TypingEnv::fully_monomorphized() {
             // bodies are cached per instance; generic roots use their own environment
         }
-        let mut st = State { frames: vec![FrameSt::new(0)], atoms: Vec::new() };
+        let mut st = State { frames: vec![FrameSt::new(0)], atoms: Vec::new(), rng_count: 0 };
         let Some(bi) = self.ip.body_of(inst) else {
             self.ip.cur_root = saved_root;
             self.ip.env = saved_env;
